@@ -93,6 +93,29 @@ class Folder:
                     for a in st.names:
                         if a.asname and a.name in self.env:
                             self.env[a.asname] = self.env[a.name]
+                elif isinstance(st, ast.Expr) and isinstance(st.value, ast.Call) and isinstance(st.value.func, ast.Attribute) and \
+                        isinstance(st.value.func.value, ast.Name) and isinstance(self.env.get(st.value.func.value.id), dict) and \
+                        st.value.func.attr == 'update' and len(st.value.args) == 1 and not st.value.keywords:
+                    # TABLE.update({...}) at module level: the table keeps being built
+                    try:
+                        add = self.fold(st.value.args[0])
+                        if isinstance(add, dict):
+                            self.env[st.value.func.value.id] = {**self.env[st.value.func.value.id], **add}
+                    except Unfoldable:
+                        self.env.pop(st.value.func.value.id, None)       # an unknown part: the table is not known any more
+                elif isinstance(st, ast.AugAssign) and isinstance(st.target, ast.Name) and isinstance(self.env.get(st.target.id), dict) and isinstance(st.op, ast.BitOr):
+                    try:
+                        add = self.fold(st.value)
+                        if isinstance(add, dict):
+                            self.env[st.target.id] = {**self.env[st.target.id], **add}
+                    except Unfoldable:
+                        self.env.pop(st.target.id, None)
+                elif isinstance(st, ast.Assign) and len(st.targets) == 1 and isinstance(st.targets[0], ast.Subscript) and isinstance(st.targets[0].value, ast.Name) and \
+                        isinstance(self.env.get(st.targets[0].value.id), dict):
+                    try:
+                        self.env[st.targets[0].value.id] = {**self.env[st.targets[0].value.id], self.fold(st.targets[0].slice): self.fold(st.value)}
+                    except Unfoldable:
+                        self.env.pop(st.targets[0].value.id, None)
 
     def _fold_enum(self, cdef):
         e = Enum(cdef.name)
@@ -112,21 +135,126 @@ class Folder:
             except Unfoldable:
                 e.members[name] = Sym('?', [], v)
 
+    _locals = None
+
+    def _elts(self, elts, local_enum):
+        out = []
+        for x in elts:
+            if isinstance(x, ast.Starred):
+                v = self.fold(x.value, local_enum)
+                if not isinstance(v, (list, tuple)):
+                    raise Unfoldable(norm(x))
+                out.extend(v)
+            else:
+                out.append(self.fold(x, local_enum))
+        return out
+
+    def _comp(self, n, local_enum):
+        """comprehension with one generator over a foldable iterable: [(bindings), ...] for which every `if` folds to true"""
+        if len(n.generators) != 1:
+            raise Unfoldable(norm(n))
+        g = n.generators[0]
+        it = self.fold(g.iter, local_enum)
+        if isinstance(it, dict):
+            it = list(it)
+        if not isinstance(it, (list, tuple)) or len(it) > 4096:
+            raise Unfoldable(norm(n))
+        saved = self._locals
+        rows = []
+        try:
+            for item in it:
+                loc = dict(saved or {})
+                if isinstance(g.target, ast.Name):
+                    loc[g.target.id] = item
+                elif isinstance(g.target, ast.Tuple) and isinstance(item, (tuple, list)) and len(item) == len(g.target.elts) and \
+                        all(isinstance(x, ast.Name) for x in g.target.elts):
+                    loc.update({x.id: v for x, v in zip(g.target.elts, item)})
+                else:
+                    raise Unfoldable(norm(n))
+                self._locals = loc
+                if all(self.fold(c, local_enum) for c in g.ifs):
+                    rows.append(loc)
+        finally:
+            self._locals = saved
+        return rows
+
+    def _with(self, loc, node, local_enum):
+        saved = self._locals
+        self._locals = loc
+        try:
+            return self.fold(node, local_enum)
+        finally:
+            self._locals = saved
+
     def fold(self, n, local_enum=None):
         if isinstance(n, ast.Constant):
             return n.value
         if isinstance(n, ast.Name):
+            if self._locals and n.id in self._locals:
+                return self._locals[n.id]
             if local_enum is not None and local_enum.has(n.id):
                 return local_enum.value(n.id)
             if n.id in self.env:
                 return self.env[n.id]
             raise Unfoldable(n.id)
         if isinstance(n, ast.Tuple):
-            return tuple(self.fold(x, local_enum) for x in n.elts)
+            return tuple(self._elts(n.elts, local_enum))
         if isinstance(n, ast.List):
-            return [self.fold(x, local_enum) for x in n.elts]
+            return self._elts(n.elts, local_enum)
         if isinstance(n, ast.Dict):
-            return {self._key(self.fold(k, local_enum)): self.fold(v, local_enum) for k, v in zip(n.keys, n.values)}
+            out = {}
+            for k, v in zip(n.keys, n.values):
+                if k is None:
+                    sub = self.fold(v, local_enum)
+                    if not isinstance(sub, dict):
+                        raise Unfoldable(norm(n))
+                    out.update(sub)
+                else:
+                    out[self._key(self.fold(k, local_enum))] = self.fold(v, local_enum)
+            return out
+        if isinstance(n, ast.DictComp):
+            return {self._key(self._with(loc, n.key, local_enum)): self._with(loc, n.value, local_enum) for loc in self._comp(n, local_enum)}
+        if isinstance(n, (ast.ListComp, ast.GeneratorExp)):
+            return [self._with(loc, n.elt, local_enum) for loc in self._comp(n, local_enum)]
+        if isinstance(n, ast.Compare) and len(n.ops) == 1:
+            a, b = self.fold(n.left, local_enum), self.fold(n.comparators[0], local_enum)
+            op = n.ops[0]
+            try:
+                if isinstance(op, ast.Eq):
+                    return a == b
+                if isinstance(op, ast.NotEq):
+                    return a != b
+                if isinstance(op, ast.Lt):
+                    return a < b
+                if isinstance(op, ast.LtE):
+                    return a <= b
+                if isinstance(op, ast.Gt):
+                    return a > b
+                if isinstance(op, ast.GtE):
+                    return a >= b
+                if isinstance(op, ast.In):
+                    return a in b
+                if isinstance(op, ast.NotIn):
+                    return a not in b
+            except TypeError:
+                pass
+            raise Unfoldable(norm(n))
+        if isinstance(n, ast.Call) and isinstance(n.func, ast.Name) and n.func.id == 'range' and not n.keywords and 1 <= len(n.args) <= 3:
+            args = [self.fold(a, local_enum) for a in n.args]
+            if all(isinstance(a, int) and not isinstance(a, bool) for a in args) and not (len(args) == 3 and args[2] == 0):
+                r = range(*args)
+                if len(r) <= 4096:
+                    return list(r)
+            raise Unfoldable(norm(n))
+        if isinstance(n, ast.Call) and isinstance(n.func, ast.Name) and n.func.id in ('dict', 'tuple', 'list') and len(n.args) == 1 and not n.keywords:
+            v = self.fold(n.args[0], local_enum)
+            if n.func.id == 'dict' and isinstance(v, dict):
+                return dict(v)
+            if n.func.id == 'dict' and isinstance(v, (list, tuple)) and all(isinstance(x, (list, tuple)) and len(x) == 2 for x in v):
+                return {self._key(k): x for k, x in v}
+            if n.func.id in ('tuple', 'list') and isinstance(v, (list, tuple)):
+                return tuple(v) if n.func.id == 'tuple' else list(v)
+            raise Unfoldable(norm(n))
         if isinstance(n, ast.UnaryOp) and isinstance(n.op, ast.USub):
             return -self.fold(n.operand, local_enum)
         if isinstance(n, ast.BinOp) and isinstance(n.op, ast.Add):
